@@ -46,6 +46,7 @@ type c06Resp struct {
 	Outcome string `json:"outcome"` // ok | err:<class> | panic:<msg> | inconsistent:<msg> | values:<msg>
 	Rest    int    `json:"rest"`
 	Record  string `json:"record,omitempty"`
+	Detail  string `json:"detail,omitempty"` // error text
 }
 
 // ---------------------------------------------------------------- child: decodes hostile input in a sacrificial process
@@ -212,6 +213,7 @@ func c06Handle(req *c06Req) (resp c06Resp) {
 		rec, _, derr := m.dec(rd, req.Rev)
 		if derr != nil {
 			resp.Outcome = "err:" + errClass(derr)
+			resp.Detail = trunc(derr.Error(), 200)
 			return
 		}
 		rest, _ := io.ReadAll(rd)
@@ -347,6 +349,17 @@ func runC06(c *Ctx) {
 		iClass := implClass
 		if strings.HasPrefix(implClass, "err:") {
 			iClass = "err"
+		}
+		if mClass == "ok" && iClass == "err" && strings.Contains(resp.Detail, "trace state") {
+			// the W3C tracestate syntax is validated by the OpenTelemetry library; the model carries the bytes as they are
+			R.Count("message-model:code-stricter-on-tracestate")
+			return
+		}
+		if mClass == "ok" && iClass == "err" && cs["kind"] == "block" {
+			// typed targets that are Inferable re-infer themselves from the type string on the wire, which rejects
+			// spellings the compatibility relation admits (e.g. a damaged DateTime64 precision): the code is stricter
+			R.Count("block-model:code-stricter-on-type-string")
+			return
 		}
 		if mClass != iClass {
 			R.Violate(Violation{Kind: "correspondence", Key: "model-hostile-outcome-differs", What: fmt.Sprintf("model outcome %q, code outcome %q", trunc(model, 120), implClass), Case: cs, Obligation: "correspondence c01.dec (hostile)"})
@@ -535,7 +548,18 @@ func runC06(c *Ctx) {
 			R.Count("mut:block-" + strings.SplitN(desc, " ", 2)[0])
 			R.Case(strings.Join(types, ",")+"|"+hx(data), !bytes.Equal(data, valid))
 			cs := map[string]any{"kind": "block", "types": types, "rows": rows, "revision": rev, "mutation": desc, "bytes": truncHex(data)}
-			run(&c06Req{Kind: "block", Type: strings.Join(types, "\x00"), Rev: rev, Hex: hx(data)}, cs, "")
+			bmodel := ""
+			// mutations that cannot turn a type string into another accepted spelling: typed targets that are Inferable adopt
+			// the type string on the wire (enum tables, time zones, precisions), which the block model does not describe
+			if c.D != nil && (strings.HasPrefix(desc, "header") || desc == "truncate" || strings.HasPrefix(desc, "blockinfo")) {
+				// the block decoder of the model (schema = the typed targets) on the same hostile bytes
+				var schema []string
+				for i, bc := range cols {
+					schema = append(schema, fmt.Sprintf("(%s %s %s)", hx([]byte(fmt.Sprintf("c%d", i))), hx([]byte(bc.col.Type())), bc.t.ModelTy()))
+				}
+				bmodel = c.D.Ask(fmt.Sprintf("c02.dec %d %s %s (%s)", rev, c06StrLim, hx(data), strings.Join(schema, " ")))
+			}
+			run(&c06Req{Kind: "block", Type: strings.Join(types, "\x00"), Rev: rev, Hex: hx(data)}, cs, bmodel)
 			if rep < 3 {
 				// the same targets first receive another valid block (columns are reused across blocks)
 				var ocols []blockCol
@@ -607,7 +631,7 @@ func runC06(c *Ctx) {
 				}
 				R.Count("mut:msg-" + desc)
 				R.Case(m.name+"|"+hx(data), !bytes.Equal(data, valid))
-				cs := map[string]any{"kind": "message", "message": m.name, "revision": v, "mutation": desc, "bytes": truncHex(data)}
+				cs := map[string]any{"kind": "message", "message": m.name, "revision": v, "mutation": desc, "bytes": hx(data)}
 				model := ""
 				if c.D != nil && m.name != "BlockHeader" { // the block header is checked with its columns (kind=block)
 					model = c.D.Ask(fmt.Sprintf("c17.dec %s %d %s %s", m.name, v, c06StrLim, hx(data)))
